@@ -164,6 +164,8 @@ func corpus(o *hc.Out, dir string) {
 	for _, lb := range []text.LineBreak{text.CRLF, text.LF, text.CR} {
 		boundaryRun(o, dir, option.JSON, 4095, lb, true, "boundary.json."+lbName(lb)+".first_record_4095")
 	}
+	// ---- the real line-break detector on every chunking of a few texts ----
+	chunkCorpus(o)
 	// ---- the dialect clause ----
 	dt := func() *table {
 		return tbl([]string{"k", "v"}, []cell{cS("r0"), cS("a")}, []cell{cS("r1"), cS("b")}, []cell{cS("r2"), cS("c")})
